@@ -198,6 +198,7 @@ pub fn run_fixture(sc: &Scenario, keep: bool) -> Outcome {
         writer_done: [Gate::default(), Gate::default()],
         consumed: [Gate::default(), Gate::default()],
         lo_side: None,
+        rst_lost: Default::default(),
         fin_delivered: Default::default(),
         round: Default::default(),
         sleepers: Default::default(),
